@@ -53,6 +53,7 @@ Names  == {"ping", "pong"}
 Handles(st, name) == st = "active" \/ name = "ping"
 
 None == 0 - 1
+NoW == 0 - 999          \* "the agent has no property w" (w is an optional second numeric property, C13)
 Min(S) == CHOOSE x \in S : \A y \in S : x <= y
 Max(S) == CHOOSE x \in S : \A y \in S : x >= y
 DefaultV == Min(Vals)
@@ -87,24 +88,35 @@ Queries(ags, tm, nid) ==
 Members(ty, st, ags) == {i \in DOMAIN ags : ags[i].ty = ty /\ ags[i].st = st}
 RECURSIVE SumSet(_, _)
 SumSet(S, ags) == IF S = {} THEN 0 ELSE LET i == CHOOSE x \in S : TRUE IN ags[i].v + SumSet(S \ {i}, ags)
+RECURSIVE SumW(_, _)
+SumW(S, ags) == IF S = {} THEN 0 ELSE LET i == CHOOSE x \in S : TRUE IN ags[i].w + SumW(S \ {i}, ags)
+WOf(M, ags) == LET H == {i \in M : ags[i].w # NoW} IN        \* the second property: over the members that have it
+               IF H = {} THEN [count |-> 0, total |-> 0, min |-> 0, max |-> 0]
+               ELSE [count |-> Cardinality(H), total |-> SumW(H, ags), min |-> Min({ags[i].w : i \in H}), max |-> Max({ags[i].w : i \in H})]
 StatOf(ty, st, ags) ==
     LET M == Members(ty, st, ags) IN
-    IF M = {} THEN [count |-> 0, total |-> 0, min |-> 0, max |-> 0]
+    IF M = {} THEN [count |-> 0, total |-> 0, min |-> 0, max |-> 0, w |-> WOf({}, ags)]
     ELSE [count |-> Cardinality(M), total |-> SumSet(M, ags),
-          min |-> Min({ags[i].v : i \in M}), max |-> Max({ags[i].v : i \in M})]
+          min |-> Min({ags[i].v : i \in M}), max |-> Max({ags[i].v : i \in M}), w |-> WOf(M, ags)]
 Stats(ags) == [ty \in Types |-> [st \in States |-> StatOf(ty, st, ags)]]
 \* the incremental algorithm of DataCollector.collect_agent_statistics, as a fold over the agent list
 RECURSIVE Fold(_, _, _)
 Fold(ags, i, acc) ==
     IF i > Len(ags) THEN acc
     ELSE LET a == ags[i]  old == acc[a.ty][a.st]
+             oldw == old.w
+             neww == IF a.w = NoW THEN oldw
+                     ELSE IF oldw.count = 0 THEN [count |-> 1, total |-> a.w, min |-> a.w, max |-> a.w]
+                     ELSE [count |-> oldw.count + 1, total |-> oldw.total + a.w,
+                           min |-> IF a.w < oldw.min THEN a.w ELSE oldw.min, max |-> IF a.w > oldw.max THEN a.w ELSE oldw.max]
              new == IF old.count = 0
-                    THEN [count |-> 1, total |-> a.v, min |-> a.v, max |-> a.v]
+                    THEN [count |-> 1, total |-> a.v, min |-> a.v, max |-> a.v, w |-> neww]
                     ELSE [count |-> old.count + 1, total |-> old.total + a.v,
                           min |-> IF a.v < old.min THEN a.v ELSE old.min,
-                          max |-> IF a.v > old.max THEN a.v ELSE old.max]
+                          max |-> IF a.v > old.max THEN a.v ELSE old.max, w |-> neww]
          IN Fold(ags, i + 1, [acc EXCEPT ![a.ty][a.st] = new])
-FoldStats(ags) == Fold(ags, 1, [ty \in Types |-> [st \in States |-> [count |-> 0, total |-> 0, min |-> 0, max |-> 0]]])
+FoldStats(ags) == Fold(ags, 1, [ty \in Types |-> [st \in States |-> [count |-> 0, total |-> 0, min |-> 0, max |-> 0,
+                                                                       w |-> [count |-> 0, total |-> 0, min |-> 0, max |-> 0]]]])
 
 (************************** scheduler step (C11, C12) **********************)
 RECURSIVE Deliver(_, _)
@@ -116,8 +128,9 @@ Deliver(due, ags) ==     \* due: Seq of eids in queue order; an event for a dead
 
 \* create_agent: the factory gets id nid, next_agent_id is bumped, initialize() runs (and may itself
 \* create agents, which are appended *before* their parent), then the agent is appended
-Kids(ty, nid) == [k \in DOMAIN Spawn[ty] |-> [id |-> nid + k, ty |-> Spawn[ty][k], st |-> "active", v |-> DefaultV, inbox |-> <<>>]]
-Made(ty, v, nid) == Kids(ty, nid) \o << [id |-> nid, ty |-> ty, st |-> "active", v |-> v, inbox |-> <<>>] >>
+Kids(ty, nid) == [k \in DOMAIN Spawn[ty] |-> [id |-> nid + k, ty |-> Spawn[ty][k], st |-> "active", v |-> DefaultV, w |-> NoW, inbox |-> <<>>]]
+MadeW(ty, v, w, nid) == Kids(ty, nid) \o << [id |-> nid, ty |-> ty, st |-> "active", v |-> v, w |-> w, inbox |-> <<>>] >>
+Made(ty, v, nid) == MadeW(ty, v, NoW, nid)
 RECURSIVE AddAll(_, _)
 AddAll(tm, new) == IF new = <<>> THEN tm ELSE AddAll([tm EXCEPT ![Head(new).ty] = Append(@, Head(new).id)], Tail(new))
 \* delete_agents: new list object without the ids; the type map is rebuilt for the types of removed agents
@@ -142,6 +155,7 @@ DoPlans(todo, A) ==
                                              !.rebound = TRUE, !.gone = @ \cup ({p.arg} \cap Ids(A.reg))]
              [] p.kind = "st"   -> [A EXCEPT !.reg = [i \in DOMAIN @ |-> IF @[i].id = p.snd THEN [@[i] EXCEPT !.st = p.arg] ELSE @[i]]]
              [] p.kind = "val"  -> [A EXCEPT !.reg = [i \in DOMAIN @ |-> IF @[i].id = p.snd THEN [@[i] EXCEPT !.v = p.arg] ELSE @[i]]]
+             [] p.kind = "w"    -> [A EXCEPT !.reg = [i \in DOMAIN @ |-> IF @[i].id = p.snd THEN [@[i] EXCEPT !.w = p.arg] ELSE @[i]]]   \* the agent gives itself the property
              [] p.kind = "new"  -> IF A.nid + 1 + Len(Spawn[p.arg]) > MaxIds THEN A
                                    ELSE LET made == Made(p.arg, DefaultV, A.nid) IN
                                         [A EXCEPT !.reg = @ \o made, !.tm = AddAll(@, made),
@@ -213,6 +227,14 @@ Create(ty, v) ==
     /\ UNCHANGED <<mq, step, evs, nsent, plan, handled, alive, dt>>
     /\ Log([op |-> "Create", ty |-> ty, v |-> v, q |-> Q1])
 
+CreateW(ty, v, w) ==    \* an agent that also has the numeric property w
+    /\ "PropW" \in Ops /\ nextId + 1 + Len(Spawn[ty]) <= MaxIds
+    /\ agents' = agents \o MadeW(ty, v, w, nextId)
+    /\ nextId' = nextId + 1 + Len(Spawn[ty])
+    /\ tmap' = AddAll(tmap, MadeW(ty, v, w, nextId))
+    /\ UNCHANGED <<mq, step, evs, nsent, plan, handled, alive, dt>>
+    /\ Log([op |-> "Create", ty |-> ty, v |-> v, w |-> w, q |-> Q1])
+
 Delete(ids) ==       \* Model.delete_agents(ids); ids may contain dead ids
     /\ "Delete" \in Ops /\ ids # {}
     /\ agents' = Without(ids, agents)
@@ -225,7 +247,8 @@ Populate(cfg, ags, nid) ==    \* create_agents for each spec entry, in order
     IF cfg = <<>> THEN [agents |-> ags, nid |-> nid]
     ELSE LET ty == Head(cfg)[1]  n == Head(cfg)[2]
          IN IF n = 0 THEN Populate(Tail(cfg), ags, nid)
-            ELSE Populate(<< <<ty, n - 1, Head(cfg)[3]>> >> \o Tail(cfg), ags \o Made(ty, Head(cfg)[3], nid), nid + 1 + Len(Spawn[ty]))
+            ELSE LET e == Head(cfg)  ww == IF Len(e) > 3 THEN e[4] ELSE NoW        \* an entry may give the agents the second property w
+                 IN Populate(<< (IF Len(e) > 3 THEN <<ty, n - 1, e[3], e[4]>> ELSE <<ty, n - 1, e[3]>>) >> \o Tail(cfg), ags \o MadeW(ty, e[3], ww, nid), nid + 1 + Len(Spawn[ty]))
 CfgSize(cfg) == SumSeq([i \in DOMAIN cfg |-> cfg[i][2] * (1 + Len(Spawn[cfg[i][1]]))])
 
 Configure(cfg) ==    \* Model.configure_agents: drop every agent, then create; ids are not reused
@@ -349,7 +372,7 @@ Init ==
     /\ mq = <<>> /\ step = 0 /\ evs = <<>> /\ nsent = 0 /\ plan = <<>> /\ handled = <<>>
     /\ alive = <<>> /\ hist = <<>> /\ dt = Dt100
 
-DoCreate    == \E ty \in Types, v \in Vals : Create(ty, v)
+DoCreate    == \E ty \in Types, v \in Vals : Create(ty, v) \/ (\E w \in Vals : CreateW(ty, v, w))
 DoDelete    == \E ids \in (SUBSET (0..(nextId - 1))) : Cardinality(ids) \in {1, 2} /\ Delete(ids)
 DoConfigure == \E c \in Configs : Configure(c)
 DoSetState  == \E id \in 0..(nextId - 1), st \in States : SetState(id, st)
@@ -360,6 +383,7 @@ DoPlanDel   == \E snd \in 0..(nextId - 1), victim \in 0..(nextId - 1), k \in ste
 DoPlanNew   == \E snd \in 0..(nextId - 1), ty \in Types, k \in step..(step + PlanAhead) : PlanNew(snd, ty, k)
 DoPlanSet   == \E snd \in 0..(nextId - 1), k \in step..(step + PlanAhead) :
                   (\E st \in States : PlanSet(snd, "st", st, k)) \/ (\E v \in Vals : PlanSet(snd, "val", v, k))
+                  \/ ("PropW" \in Ops /\ \E v \in Vals : PlanSet(snd, "w", v, k))
 DoPlanEnd   == \E target \in 0..(nextId - 1), k \in step..(step + PlanAhead) :
                   (\E st \in States : PlanEnd("est", target, st, k)) \/ (\E v \in Vals : PlanEnd("eval", target, v, k))
 DoRun       == \E rs \in RunSpecs : Run(rs)
